@@ -149,8 +149,14 @@ def run(res):
             t = matchgen.matcher(rnd, rnd.choice([1, 2, 3]))
         elif r < 0.8:
             t = matchgen.mutate(rnd, matchgen.mutate(rnd, matchgen.matcher(rnd, 2)))
-        elif r < 0.9:
+        elif r < 0.85:
             t = ''.join(rnd.choice('()[]"!,.:=@#*~ -_abc019\t\x1b\\é→１') for _ in range(rnd.choice([1, 3, 8, 30])))
+        elif r < 0.9:
+            # characters whose case mapping, digit value or width is unusual, in the places where the parser classifies characters
+            odd = rnd.choice(['İ', 'ı', 'K', 'ſ', 'ß', 'ǅ', 'ﬁ', '²', '٣', '１', 'Ⅷ', 'ª', 'µ', '\u0345', '\u200b', '\ud800', '\uffff', '𝟓', 'ａ'])
+            base = rnd.choice(['5%s', '@3%s', '#7%s', '%s5', '3a%s', '%s', 'A%s: 3', 'x.configure(3%s)', '(x=%s)', '(%s=1)', 'wl_%s', '[4%s, wl_surface]',
+                               '.%s', '3%sb', '(1.%s)', '(-%s)', '"%s"'])
+            t = base % odd
         else:
             t = ''.join(chr(rnd.choice([rnd.randrange(32, 127), rnd.randrange(0x80, 0x3000), rnd.randrange(0x1F300, 0x1F600)])) for _ in range(rnd.choice([1, 5, 20])))
         res.evaluations += 1
